@@ -42,6 +42,8 @@ func c10States() []c10Job {
 	out = append(out, c10Job{Name: "one server, empty location", Init: []string{"sauth:S1:0:1:G1:0"}})
 	out = append(out, c10Job{Name: "one server, 1-byte location", Init: []string{"sauth:S1:0:1:G1:1"}})
 	out = append(out, c10Job{Name: "one server, 255-byte location, banned", Init: []string{"sauth:S1:0:1:G1:255", "sauth:S1:1:1:G1:255"}})
+	out = append(out, c10Job{Name: "a 256-byte location is refused, a 255-byte one listed", Init: []string{"sauth:S1:0:1:G1:256", "sauth:S2:0:4:G1:255"}})
+	out = append(out, c10Job{Name: "a 300-byte location is refused, then a second server", Init: []string{"sauth:S1:0:1:G1:300", "sauth:S2:0:4:G1:9"}})
 	out = append(out, c10Job{Name: "two servers and reports", Init: append([]string{"sauth:S1:0:1:G1:9", "sauth:S2:1:4:G1:9"}, edge...)})
 	out = append(out, c10Job{Name: "banned server followed by a live one (same location length)", Init: []string{"sauth:S1:0:1:G1:9", "sauth:S2:0:4:G1:9", "sauth:S1:1:1:G1:9"}})
 	out = append(out, c10Job{Name: "banned server followed by live ones with shorter and longer locations", Init: []string{"sauth:S1:0:1:G1:40", "sauth:S2:0:4:G1:9", "sauth:S3:0:7:G1:60", "sauth:S1:1:1:G1:40"}})
@@ -56,6 +58,11 @@ func c10Run(j c10Job) *jobReport {
 	rep := &jobReport{Reasons: map[string]int{}}
 	p, err := newPairWorld("c10", 1000, j.Init, nil, 0)
 	if err != nil {
+		if strings.Contains(err.Error(), "init op") {
+			// the server answered a set-up operation differently from the reference model: the state this job is about does not exist
+			rep.fail("setup-operation-disagrees-with-the-model", map[string]interface{}{"state": j.Name, "what": err.Error()})
+			return rep
+		}
 		rep.fail("harness/setup", err.Error())
 		return rep
 	}
